@@ -7,6 +7,7 @@ import (
 
 	"pgregory.net/rapid"
 
+	"verif/c04"
 	"verif/ev"
 	"verif/model"
 )
@@ -78,10 +79,108 @@ func TestCheck(t *testing.T) {
 	if !ev.Rapid(t, col, "engine-up-down-inline-unique", col.N(1000, 100000), genCaseInlineUnique, mkCheck(col), known) {
 		return
 	}
+	if !runFKGraphs(t, col) {
+		return
+	}
 	runDownFiles(t, col)
 }
 
+// runFKGraphs: MySQL and PostgreSQL have no engine here; what their reverse statements do to tables and foreign keys is
+// replayed on C04's reference catalogue: every graph of up to 3 tables (created / dropped / kept, self references, cycles)
+// x dialect x plan mode, then random graphs of 5-8 tables incl. the MySQL flavours and two-schema realms.
+func runFKGraphs(t *testing.T, col *ev.Collector) bool {
+	check := func(c c04.Case) error {
+		edges, rev, err := c04.CheckReverse(c)
+		col.Class(fmt.Sprintf("fk-graphs/%s/reversible=%v", c.Dialect, rev))
+		if rev && edges > 0 {
+			col.NonTrivial(fmt.Sprintf("fkgraph|%s|%d|%v|%v|%v|%d|%s|%v", c.Dialect, c.Mode, c.Role, c.FromE, c.ToE, c.Names, c.Flavour, c.Split))
+		}
+		col.Sample("fk-graphs/"+c.Dialect, c)
+		return err
+	}
+	i := 0
+	for _, d := range []string{"mysql", "postgres"} {
+		for _, mode := range []int{0, 2} {
+			for n := 1; n <= 3; n++ {
+				if n == 3 && !col.Thorough() {
+					continue // 27 x 512 graphs per dialect and mode: thorough tier
+				}
+				for _, c := range c04.EnumCases(n, d, mode) {
+					i++
+					if !col.Mine(i) {
+						continue
+					}
+					if !ev.Each(col, "fk-graphs-reverse", c, check, knownFK) {
+						return false
+					}
+				}
+			}
+		}
+	}
+	return ev.Rapid(t, col, "fk-graphs-reverse-random", col.N(1500, 100000), c04.GenRandom, check, knownFK)
+}
+
+var knownFK = ev.Matcher[c04.Case]{
+	// a dropped table that references itself and another table: the planner detaches the foreign keys of the table before
+	// dropping it (DetachCycles counts the self reference as a cycle) and plans the DROP TABLE for a copy without any
+	// foreign key, so the reverse CREATE TABLE lacks the self reference. Matches only when nothing but self references of
+	// tables is missing after the round trip.
+	"detached-drop-loses-self-reference": func(c c04.Case, err error) bool {
+		msg := err.Error()
+		if !strings.Contains(msg, "does not give back the initial tables and foreign keys") {
+			return false
+		}
+		line := func(prefix string) (tables string, fks map[string]bool) {
+			fks = map[string]bool{}
+			for _, l := range strings.Split(msg, "\n") {
+				l = strings.TrimSpace(l)
+				if !strings.HasPrefix(l, prefix) {
+					continue
+				}
+				l = strings.TrimSpace(strings.TrimPrefix(l, prefix))
+				i := strings.Index(l, " fks=[")
+				if i < 0 {
+					return "", nil
+				}
+				tables = l[:i]
+				for _, f := range strings.Fields(strings.TrimSuffix(l[i+len(" fks=["):], "]")) {
+					fks[f] = true
+				}
+				return tables, fks
+			}
+			return "", nil
+		}
+		it, ifk := line("initial ")
+		at, afk := line("after ")
+		if ifk == nil || afk == nil || it != at {
+			return false
+		}
+		missing := 0
+		for f := range afk {
+			if !ifk[f] {
+				return false // something appeared
+			}
+		}
+		for f := range ifk {
+			if afk[f] {
+				continue
+			}
+			// "t0.fk_0_0->t0": only a reference of a table to itself may be missing
+			dot, arrow := strings.Index(f, ".fk"), strings.Index(f, "->")
+			if dot < 0 || arrow < 0 || f[:dot] != f[arrow+2:] {
+				return false
+			}
+			missing++
+		}
+		return missing > 0
+	},
+}
+
 func TestReplay(t *testing.T) {
+	if strings.HasPrefix(ev.ReplaySub(), "fk-graphs") {
+		ev.ReplayFile(t, "C17", func(_ string, c c04.Case) error { _, _, err := c04.CheckReverse(c); return err })
+		return
+	}
 	if ev.ReplaySub() == "downfiles-dialects" {
 		ev.ReplayFile(t, "C17", func(_ string, c GCase) error { _, err := checkDialectDown(c); return err })
 		return
